@@ -52,24 +52,25 @@ func NewDirect(impl SvcServer, o DirectOpts) *Direct {
 
 // ProxyTopo is clients -- proxy -- demux(by source) -- one Serve per client.
 type ProxyTopo struct {
-	Tap         *Tap
-	Proxy       *goat.Proxy
-	Ctx         context.Context
-	Cancel      context.CancelFunc
-	CPipes      []*Pipe
-	CCs         []*goat.ClientConn
-	SPipe       *Pipe
-	Demux       *goat.Demux
-	Srv         *goat.Server
-	Disconnects []string
-	Dialed      []string
-	ProxyDone   bool
-	DemuxDone   bool
-	Serves      int
-	ServesDone  int
-	DialErr     map[string]error
-	Extra       map[string]*Pipe // further dialable raw peers by name (proxy side = A)
-	SlowDial    map[string]chan struct{} // dialling these names blocks until the channel is closed
+	Tap          *Tap
+	Proxy        *goat.Proxy
+	Ctx          context.Context
+	Cancel       context.CancelFunc
+	CPipes       []*Pipe
+	CCs          []*goat.ClientConn
+	SPipe        *Pipe
+	Demux        *goat.Demux
+	Srv          *goat.Server
+	Disconnects  []string
+	OnDisconnect func(id string) // called from the proxy's disconnect callback (e.g. a reconnect policy)
+	Dialed       []string
+	ProxyDone    bool
+	DemuxDone    bool
+	Serves       int
+	ServesDone   int
+	DialErr      map[string]error
+	Extra        map[string]*Pipe         // further dialable raw peers by name (proxy side = A)
+	SlowDial     map[string]chan struct{} // dialling these names blocks until the channel is closed
 }
 
 type ProxyOpts struct {
@@ -103,6 +104,9 @@ func NewProxyTopo(impl SvcServer, o ProxyOpts) *ProxyTopo {
 	}
 	t.Proxy = goat.NewProxy(t.Ctx, "proxy", dial, o.Intercept, func(id string, reason error) {
 		t.Disconnects = append(t.Disconnects, id)
+		if t.OnDisconnect != nil {
+			t.OnDisconnect(id)
+		}
 	})
 	if !o.NoServer {
 		t.Srv = goat.NewServer("srv")
